@@ -546,13 +546,16 @@ class RichGen:
             parts.append(s)
         return "<" + ", ".join(parts) + ">"
 
-    def parents(self, depth, multiclass=False):
-        n = self.rng.choice([0, 0, 1, 1, 2])
+    def parents(self, depth, multiclass=False, defm=False):
+        n = self.rng.choice([0, 0, 1, 1, 2]) if not defm else self.rng.choice([1, 1, 2, 3])
         if n == 0:
             return ""
         ps = []
-        for _ in range(n):
-            if multiclass:
+        for i in range(n):
+            if defm and i > 0 and self.p(0.4):
+                # a defm may list classes after its multiclasses
+                c = self.some_class()
+            elif multiclass:
                 c = self.rng.choice(list(self.env.multiclasses.keys()) + ["MC"]) if self.env.multiclasses and not self.wrong() else self.rng.choice(["MC", "M", "A"])
             else:
                 c = self.some_class()
@@ -578,7 +581,7 @@ class RichGen:
                 self.env.fields.append(nm)
             elif r < 0.75:
                 nm = self.rng.choice(self.env.fields) if self.env.fields and not self.wrong() else self.rng.choice(["f", "g", "zz"])
-                rng_part = self.rng.choice(["", "", "", "{0}", "{0-3}"])
+                rng_part = self.rng.choice(["", "", "", "{0}", "{0-3}", "{7}", "{3...0}", "{7, 3-0}", "{15-8}", "{1 0}", "{0x3-0}"])
                 items.append("let %s%s = %s;" % (nm, rng_part, self.value(depth, "any")))
             elif r < 0.85:
                 nm = self.fresh("lv")
@@ -649,7 +652,7 @@ class RichGen:
             return d + "def %s%s%s\n" % (name, par, body)
         if k == "defm":
             name = self.fresh("dm") if self.p(0.8) else ""
-            par = self.parents(depth, multiclass=True)
+            par = self.parents(depth, multiclass=True, defm=True)
             if not par and not self.wrong():
                 par = " : " + (rng.choice(list(self.env.multiclasses.keys())) if self.env.multiclasses else "MC")
             return d + "defm %s%s;\n" % (name, par)
